@@ -106,6 +106,13 @@ func c12drainCoverage(c *Ctx) {
 		c.R.Undecided(rule, twPkg+".(*TimingWheel).drainAll#slots", "the slot loop is recognised", "no indexing of tw.slots found")
 		return
 	}
+	// … and no slot loop is left early: the index of pending keys may be empty while live entries remain (a cancelled
+	// twin left by a re-insert move forgets the key first), so "nothing left in timers" is not "nothing left to deliver"
+	for _, ee := range earlyExitLoops(f) {
+		if strings.HasPrefix(ee, "rangeindex") || strings.HasPrefix(ee, "for loop") {
+			bad = append(bad, "the slot loop can be left before the last slot ("+ee+")")
+		}
+	}
 	c.R.Check(len(bad) == 0, rule, twPkg+".(*TimingWheel).drainAll#slots", "the drain loop visits every slot of the wheel (a range over tw.slots, or a counting loop from the first to the last slot, possibly rotated): a slot that is skipped keeps its timers, which Drain then does not deliver", posOf(c, f), fmt.Sprint(bad), nil, sites)
 }
 
@@ -1032,7 +1039,16 @@ func c12move(c *Ctx) {
 			return true, ""
 		}
 		if p.Has(calleeIs("core/threading.GoSafe")) {
-			return true, "" // delay below one interval: outside the property's domain (d >= interval)
+			// delay below one interval: running the task now is outside the property's domain (d >= interval) — but the
+			// wheel's bookkeeping must stay consistent for the in-domain operations that follow: an entry marked removed
+			// here must also lose its key, otherwise a later SetTimer for the key "moves" the dead entry and never fires
+			if circleSt != nil || diffSt != nil {
+				return false, "the run-now branch rewrites circle/diff of the pending entry"
+			}
+			if removedSt != nil && !p.Has(calleeIs(twPkg+".(*SafeMap).Del")) {
+				return false, "the run-now branch marks the pending entry removed but leaves its key in timers: the index points at a dead entry, and a later SetTimer for the key only updates that entry — the new value never fires"
+			}
+			return true, ""
 		}
 		if circleSt != nil || diffSt != nil {
 			lazy++
